@@ -58,7 +58,7 @@ func R05() Rule {
 		if nEsc == 0 {
 			c.Ok("R05", "no-escape-of-guarded-references", token.NoPos, true, "%d message-returning paths of RPC methods inspected; no value derived from table.def / server.tables is returned, stored into a heap object or handed to a goroutine", nRet)
 		}
-		if nRet < 10 {
+		if nRet < 5 {
 			c.Unknown("R05", "floor/returns", token.NoPos, "only %d message returns found in RPC methods", nRet)
 		}
 		// ownership transfer: what is handed to newTable / Storage.Create becomes guarded state;
